@@ -8,6 +8,8 @@
  *   I <var> <kind 0..3> <hexvalue>                  I | <var dumps>
  *   O <task> <var> <op> <hexvalue> <has_dest>       S B<t> R<t>:<rc>:<val> ... | <var dumps>     (or BUSY <t>)
  *   M <var> <op> <hexvalue> <has_dest>              same; the call is made by the controller task itself, task id = ntasks
+ *   X <var> <op> <hexvalue> <has_dest>              same; the call is made by a real non-qthread pthread (reported as task id ntasks);
+ *                                                   only calls that go through the blocking proxy and are enabled (generator)
  *   D                                               D R<t>:<rc>:<val> ... | <var dumps>   (drain: empty/fill until no waiters)
  *   Q
  * var dump:  V<i> w=<hex u.w, lock bit masked> s=<qthread_syncvar_status> r=<record present> E=[tids] FE=[tids] FF=[tids]
@@ -19,6 +21,8 @@
 #include <unistd.h>
 #include <time.h>
 #include <inttypes.h>
+#include <pthread.h>
+#include <semaphore.h>
 
 #define MAXT 16
 #define MAXV 8
@@ -103,6 +107,48 @@ static aligned_t task_fn(void *arg)
     return 0;
 }
 
+static double now(void)
+{
+    struct timespec ts;
+    clock_gettime(CLOCK_MONOTONIC, &ts);
+    return ts.tv_sec + 1e-9 * ts.tv_nsec;
+}
+
+/* ---- hang watchdog: a real pthread; if the controller stays inside one command for longer than any legitimate wait
+ * (e.g. it spins on a waiter-record lock that the code under test never released) report STUCK and exit ---- */
+static volatile unsigned long heartbeat = 0;
+static volatile int           in_cmd    = 0;
+static void *hang_watchdog(void *unused)
+{
+    unsigned long last = 0;
+    double        since = now();
+    for (;;) {
+        usleep(200000);
+        if (!in_cmd || heartbeat != last) { last = heartbeat; since = now(); continue; }
+        if (now() - since > 2 * stuck_after + 5) {
+            printf("STUCK 99 | the controller is stuck inside a command (lock never released?)\n");
+            fflush(stdout);
+            _exit(3);
+        }
+    }
+    return NULL;
+}
+
+/* ---- external (non-qthread) caller: one server pthread executing one call at a time ---- */
+static sem_t         xsem;
+static volatile int  xdone = 0;
+static task_t       *volatile xtask = NULL;
+static void *external_caller(void *unused)
+{
+    for (;;) {
+        while (sem_wait(&xsem) != 0) ;
+        do_op(xtask);
+        MACHINE_FENCE;
+        xdone = 1;
+    }
+    return NULL;
+}
+
 /* ---- audit accessor (read-only) over the waiter record of one syncvar ---- */
 typedef struct { int present; int n[3]; int who[3][MAXT + 2]; } audit_t;
 
@@ -142,12 +188,6 @@ static int enqueued(int t)
     return 0;
 }
 
-static double now(void)
-{
-    struct timespec ts;
-    clock_gettime(CLOCK_MONOTONIC, &ts);
-    return ts.tv_sec + 1e-9 * ts.tv_nsec;
-}
 
 /* wait until every in-flight call has returned or is enqueued; 0 = quiescent, else a bit set of tasks that are neither */
 static unsigned wait_quiescent(void)
@@ -242,8 +282,13 @@ static void end_script(void)
 static aligned_t controller(void *unused)
 {
     char line[4096];
+    pthread_t xth, wth;
 
-    while (fgets(line, sizeof line, stdin)) {
+    sem_init(&xsem, 0, 0);
+    pthread_create(&xth, NULL, external_caller, NULL);
+    pthread_create(&wth, NULL, hang_watchdog, NULL);
+    while (in_cmd = 0, fgets(line, sizeof line, stdin)) {
+        heartbeat++; in_cmd = 1;
         if (line[0] == 'N') {
             int nt, nv;
             if (ntasks) end_script();
@@ -279,16 +324,30 @@ static aligned_t controller(void *unused)
                 default: *V[v] = SYNCVAR_EMPTY_INITIALIZE_TO(val); break;
             }
             printf("I |"); dump_vars(); printf("\n");
-        } else if (line[0] == 'O' || line[0] == 'M') {
+        } else if (line[0] == 'O' || line[0] == 'M' || line[0] == 'X') {
             int t, v, op, hd; uint64_t val;
             int before[MAXT + 1];
-            int ctl = line[0] == 'M';
+            int ctl = line[0] != 'O';
             if (ctl) { sscanf(line + 1, "%d %d %" SCNx64 " %d", &v, &op, &val, &hd); t = ntasks; }
             else sscanf(line + 1, "%d %d %d %" SCNx64 " %d", &t, &v, &op, &val, &hd);
             if (!ctl && T[t]->cmd_seq != T[t]->done_seq) { printf("BUSY %d\n", t); fflush(stdout); continue; }
             for (int i = 0; i < ntasks; i++) before[i] = T[i]->done_seq;
             T[t]->op = op; T[t]->var = v; T[t]->val = val; T[t]->has_dest = hd;
-            if (ctl) {
+            if (line[0] == 'X') {
+                /* a real non-qthread pthread makes the call (proxied by the library through a forked task) */
+                double t0 = now();
+                unsigned spins = 0;
+                xtask = T[t]; xdone = 0;
+                MACHINE_FENCE;
+                sem_post(&xsem);
+                while (!xdone) {
+                    qthread_yield();
+                    if ((++spins & 0x3f) == 0) {
+                        if (now() - t0 > stuck_after) { printf("STUCK %d | external call did not return\n", t); fflush(stdout); _exit(3); }
+                        if (spins > 2000) usleep(100);
+                    }
+                }
+            } else if (ctl) {
                 /* the controller may only issue calls that cannot block (the generator guarantees it) */
                 do_op(T[t]);
             } else {
